@@ -2,9 +2,11 @@
    Model: theories/CoapSemantic.v (coap.py _parse_options in semantic mode, CoAPParser.unparse).
    RFC side: RfcHeaders.coap_msg (any option list: numbers known or unknown to the library, deltas and
    value lengths in all three encoding classes incl. exactly 13 and 269, repeated options, with and
-   without payload).  Only statements; proofs in theories/CoapSemanticSpec.v. *)
+   without payload).  Only statements; proofs in theories/CoapSemanticSpec.v (bits) and
+   theories/CoapSemanticRefine.v (bytes). *)
 From Coq Require Import ZArith List Bool.
-From MS Require Import PyBase Bits Schc Parsers RfcHeaders CoapSemantic ParserRfc CoapSemanticSpec.
+From MS Require Import PyBase Buffer Bits BufferAbs Schc Parsers RfcHeaders CoapSemantic ParserRfc CoapSemanticSpec
+  SchcBytes SchcRefine ParserBytes ParserRefine ComputeRefine CoapSemanticBytes CoapSemanticRefine.
 Import ListNotations.
 Open Scope Z_scope.
 
@@ -20,6 +22,29 @@ Theorem c19_lossless_view m : coap_wf m ->
                     coap_unparse (pairs sem) = Ok (pairs syn).
 Proof. exact (c19_lossless m). Qed.
 
+(* composition with the byte-level Buffer model.  The semantic parser written with the Buffer operations
+   (CoapSemanticBytes.bparse_coap_semantic: every slice, comparison and integer read as buffer.py performs it on bytes)
+   returns, on EVERY canonical left-padded Buffer (well-formed message or not), the outcome of the bit-level one: the same
+   exception, or canonical left-padded field Buffers denoting the same fields and the same header length *)
+Theorem c19_bytes_parse b : canon b -> bside b = LEFT ->
+  same_outcome hdr_rel (bparse_coap_semantic b) (parse_coap_semantic (abs b)).
+Proof. exact (bparse_coap_semantic_refines b). Qed.
+(* the un-parser written with the Buffer operations (CoapSemanticBytes.bcoap_unparse: to_bytes, Buffer construction) returns,
+   on EVERY list of canonical field values (identifiers known or not, in any order), the outcome of the bit-level one: the
+   same exception (incl. those of the finally clause of coap.py, which both levels have), or canonical Buffers denoting
+   the same (id, value) pairs; no side condition *)
+Theorem c19_bytes_unparse bfs : canonf bfs ->
+  same_outcome unp_rel (bcoap_unparse bfs) (coap_unparse (absf bfs)).
+Proof. exact (bcoap_unparse_refines bfs). Qed.
+(* the property on packet bytes, no abstraction left in the conclusion: on a canonical left-padded Buffer holding the bits
+   of a well-formed message, byte-level semantic parse then byte-level unparse returns exactly the (id, value) Buffers of
+   the byte-level syntactic parse *)
+Theorem c19_bytes_lossless m b : coap_wf m -> canon b -> bside b = LEFT -> abs b = coap_encode m ->
+  exists bsem bsyn n, bparse_coap_semantic b = Ok (bsem, n) /\ bparse_coap b = Ok (bsyn, n) /\
+                      bcoap_unparse (bpairs bsem) = Ok (bpairs bsyn) /\
+                      absf (bpairs bsyn) = pairs (coap_fields m) /\ n = coap_header_len m.
+Proof. exact (bc19_lossless m b). Qed.
+
 (* non-vacuity: delta 13 with an empty value, then the unknown option number 23, then a 12-byte value at delta 269 *)
 Example c19_ex :
   let m := mk_coap [false;true] [false;false] 0 (bits_of 8 1) (bits_of 16 7) []
@@ -33,3 +58,6 @@ Proof. vm_compute. reflexivity. Qed.
 Print Assumptions c19_semantic.
 Print Assumptions c19_unparse_fields.
 Print Assumptions c19_lossless_view.
+Print Assumptions c19_bytes_parse.
+Print Assumptions c19_bytes_unparse.
+Print Assumptions c19_bytes_lossless.
